@@ -29,13 +29,15 @@ TEXT_TYPES = ["string", "wstring", "uri"]
 ENCODABLE = z3.Star(z3.Union(z3.Range(chr(0), chr(0xD7FF)), z3.Range(chr(0xDC80), chr(0xDCFF)), z3.Range(chr(0xE000), chr(0x2FFFF))))
 # (text with a surrogate outside the escape range U+DC80..U+DCFF has no encoding: the write is refused - what must not happen is that it comes back as other text)
 LONE = ["'\\ud800'", "'a\\udfffb'", "'\\udbff\\udc00'", "'caf\\udce9 \\ud83d'"]
-EXTRA_VALUES = {"string": LONE, "wstring": LONE[:1], "uri": LONE[:1], "stringlist": ["['x', '\\ud800']"], "dynamic": LONE[:1] + ["['x', 0]", "['/tmp/a', 1]", "['x', True]", "['c:\\\\x', False]", "[]", "['only one']"], "net.ipaddress": ["'255.255.255.255'", "'0.0.0.0'", "'::ffff:1.2.3.4'", "'2001:db8::1'"], "float": ["-0.0", "float('inf')", "5e-324"], "boolean": ["True", "False"],
+EXTRA_VALUES = {"string": LONE, "wstring": LONE[:1], "uri": LONE[:1], "stringlist": ["['x', '\\ud800']"], "dynamic": LONE[:1] + ["['x', 0]", "['/tmp/a', 1]", "['x', True]", "['c:\\\\x', False]", "[]", "['only one']"], "net.ipaddress": ["'255.255.255.255'", "'0.0.0.0'", "'::ffff:1.2.3.4'", "'2001:db8::1'"], "float": ["-0.0", "float('inf')", "5e-324", "float('nan')", "F64('fff80000deadbeef')", "F64('7ff8000000000123')", "F64('fff8000000000000')", "F64('7ff0000000000001')"], "boolean": ["True", "False"],
                 "path": ["'relative/p'", "'C:\\\\Users\\\\x'", "'/'"], "datetime": ["DT(1, 1, 1, tzinfo=TZ(TD(0)))", "DT(9999, 12, 31, 23, 59, 59, 999999, tzinfo=TZ(TD(0)))", "DT(2021, 10, 31, 2, 30, tzinfo=TZ(TD(hours=-3, minutes=-30)))", "DT(2020, 1, 2, 3, 4, 5, 6, tzinfo=TZ(TD(minutes=19, seconds=32)))", "DT(1900, 1, 1, tzinfo=TZ(-TD(hours=4, minutes=56, seconds=2)))"],
                 "bytes": ["bytes(range(256))"], "command": ["'x'", "\"''\"", "\"'' -c 'echo hello'\"", "'\"\" /x /y'", "'%COMSPEC% /c dir'"], "dictlist": ["[{'a': [1, 2]}]", "[{'a': {'b': 1}, 'c': None}]", "[{b'k': 1, 'k': 2}]", "[{b'\\xff': b'v'}]", "[{1: 'a', 2.5: None, True: 'b'}]", "[{-7: {2: 'nested'}}]"], "digest": ["('d41d8cd98f00b204e9800998ecf8427e', 'da39a3ee5e6b4b0d3255bfef95601890afd80709', 'e3b0c44298fc1c149afbf4c8996fb92427ae41e4649b934ca495991b7852b855')"]}
 
 
 def pyvalue(src):
-    return eval(src, dict(V.NS, PurePosixPath=pathlib.PurePosixPath, PureWindowsPath=pathlib.PureWindowsPath))
+    import struct
+
+    return eval(src, dict(V.NS, PurePosixPath=pathlib.PurePosixPath, PureWindowsPath=pathlib.PureWindowsPath, F64=lambda h: struct.unpack(">d", bytes.fromhex(h))[0]))
 
 
 def build(tier="quick", seed=0):
@@ -281,6 +283,22 @@ def build(tier="quick", seed=0):
         return [deep_obs(it, r) for r in rs], roundtrip(rs)
 
     add("C01.grouped[a member type shares its name with a type written before]", th_grouped_same_name, lambda w: {"call": "c01_grouped_same_name", "args": {"x": w.get("x", 0), "s": w.get("s", ""), "y": w.get("y", 0)}}, wit=lambda m_, p: {"x": model_value(m_, x), "s": model_value(m_, sv), "y": model_value(m_, y)})
+
+    for kind in ("bytearray", "memoryview"):
+        def th_buffer(kind=kind):
+            # a bytes field given a MUTABLE buffer (when it is accepted at all): what is written is what the record held when it was created, whatever the caller does to its buffer afterwards
+            D = it.call(RD, ["c01/buf", [("bytes", "x"), ("bytes[]", "l")]], {})
+            buf = bytearray(b"AAAAAAAA")
+            src = buf if kind == "bytearray" else memoryview(buf)
+            try:
+                r = it.call(D, [], {"x": src, "l": [src]})
+            except PyRaise:
+                return [], ([], "stop")
+            before = [deep_obs(it, r)]
+            buf[:] = b"DDDDDDDD"
+            return before, roundtrip([r])
+
+        add(f"C01.history[a {kind} given to a bytes field is changed by the caller after the record was created]", th_buffer, lambda w, kind=kind: {"call": "c01_buffer_history", "args": {"kind": kind}}, mode="concrete history")
 
     # ---- canary / conformance / bounded
     def run_canary(tier):
